@@ -28,6 +28,7 @@ import copy
 from typing import Any, Callable
 
 from kv.driver import op_var
+from kv.fakekube import GSEQ
 
 
 def jsonable(x: Any, depth: int = 0) -> Any:
@@ -58,10 +59,10 @@ class Recorder:
         return self.sim.loop.time()
 
     def op_event(self, inc: str, what: str, **kw: Any) -> None:
-        self.events.append({'k': 'op', 't': self.now(), 'inc': inc, 'what': what, **kw})
+        self.events.append({'k': 'op', 'g': next(GSEQ), 't': self.now(), 'inc': inc, 'what': what, **kw})
 
     def note(self, what: str, **kw: Any) -> None:
-        self.events.append({'k': 'note', 't': self.now(), 'what': what, **kw})
+        self.events.append({'k': 'note', 'g': next(GSEQ), 't': self.now(), 'what': what, **kw})
 
     # ---- scripts --------------------------------------------------------------------
     def next_atom(self, hid: str, uid: str | None) -> Any:
@@ -80,7 +81,7 @@ class Recorder:
         body = kw.get('body')
         meta = (body.get('metadata', {}) if body is not None else {}) or {}
         rec: dict[str, Any] = {
-            'k': 'call', 'seq': self.call_seq, 't': self.now(), 'inc': inc, 'h': hid, 'kind': kind,
+            'k': 'call', 'g': next(GSEQ), 'seq': self.call_seq, 't': self.now(), 'inc': inc, 'h': hid, 'kind': kind,
             'uid': meta.get('uid'), 'name': meta.get('name'), 'ns': meta.get('namespace'),
             'rv': meta.get('resourceVersion'),
             'retry': kw.get('retry'), 'reason': (str(kw['reason']) if kw.get('reason') is not None else None),
@@ -112,7 +113,7 @@ class Recorder:
     def ret(self, call: dict[str, Any], outcome: str, **kw: Any) -> None:
         inc = call['inc']
         client = self.sim.kube.clients.get(inc) if inc else None
-        rec = {'k': 'ret', 'seq': call['seq'], 't': self.now(), 'inc': inc, 'h': call['h'], 'uid': call['uid'],
+        rec = {'k': 'ret', 'g': next(GSEQ), 'seq': call['seq'], 't': self.now(), 'inc': inc, 'h': call['h'], 'uid': call['uid'],
                'kind': call['kind'], 'outcome': outcome, **kw}
         if client is not None and client.dead:
             rec['post_mortem'] = True
@@ -144,7 +145,7 @@ async def play(rec: Recorder, call: dict[str, Any], atom: Any, kw: dict[str, Any
     while True:
         op = atom[0]
         if op == 'slow':
-            await asyncio.sleep(float(atom[1]))
+            await asyncio.sleep(round(float(atom[1]), 6))
             atom = atom[2] if len(atom) > 2 else ['ok']
         elif op == 'patch':
             patch = kw.get('patch')
